@@ -207,3 +207,25 @@ pub const TREE: Node<Dev> = Branch {
         Leaf { name: b"*CLIST", default: false, handler: &ChanList },
     ],
 };
+
+/// Every form of the tree-building macros, and the same tree from the `const fn` constructors (rule R02.11: both must
+/// evaluate to the documented node structure - in particular `Branch!(name => handler; ..)` puts the handler in a default
+/// leaf with an *empty* name in front of the children).
+pub const MACRO_TREE: Node<Dev> = scpi::Root![
+    scpi::Leaf!(b"LEAf" => &EchoChr),
+    scpi::Leaf!(default b"DLEaf" => &EchoStr),
+    scpi::Branch!(b"BRANch"; scpi::Leaf!(b"SUB" => &EchoChr), scpi::Leaf!(b"OTHer" => &EchoStr)),
+    {
+        use scpi::Leaf;
+        scpi::Branch!(b"HBRanch" => &EchoArb; scpi::Leaf!(b"SUB" => &EchoChr))
+    },
+    scpi::Branch!(default b"DBRanch"; scpi::Leaf!(default b"SUB" => &EchoChr))
+];
+
+pub const CTOR_TREE: Node<Dev> = Node::root(&[
+    Node::leaf(b"LEAf", &EchoChr),
+    Node::default_leaf(b"DLEaf", &EchoStr),
+    Node::branch(b"BRANch", &[Node::leaf(b"SUB", &EchoChr), Node::leaf(b"OTHer", &EchoStr)]),
+    Node::branch(b"HBRanch", &[Node::default_leaf(b"", &EchoArb), Node::leaf(b"SUB", &EchoChr)]),
+    Node::default_branch(b"DBRanch", &[Node::default_leaf(b"SUB", &EchoChr)]),
+]);
